@@ -73,3 +73,38 @@ contract("uxarray.grid.grid.Grid.copy", props=["C10", "C19"],
                   "source_dims_dict=self._source_dims_dict)"],
          options={"abstract": True},
          raises=[("Exception", "False", "only_if")])
+
+
+# UxDataArray.isel (C09 / C10): a grid dimension given as a keyword slices the GRID first and re-attaches the data through
+# _slice_from_grid; everything else is plain xarray indexing (base class), which keeps the grid through the _replace/_copy hooks
+_GISEL = "uxarray.grid.grid.Grid.isel"
+for _d, _k in ((("time", "n_face"), "n_face"), (("n_node",), "n_node"), (("lev", "n_edge"), "n_edge")):
+    _var = "dims=" + ",".join(_d)
+    contract(_U + "isel", props=["C09", "C10"], variant=_var,
+             params={"self": f"obj('UxDataArray', dims={_d!r})", "indexers": "none", "drop": "False", "missing_dims": "'raise'",
+                     "ignore_grid": "bool", "indexers_kwargs": {_k: "opaque"}},
+             returns="opaque",
+             ensures=[
+                 # grid slicing: the data are re-attached to the slice of THIS array's grid along the requested dimension
+                 f"implies(not ignore_grid, same(result, summary('{_U}_slice_from_grid', self, "
+                 f"summary('{_GISEL}', self.uxgrid, {{'{_k}': indexers_kwargs['{_k}']}}))))"],
+             options={"abstract": True, "summaries": [_GISEL, _U + "_slice_from_grid"]},
+             raises=[("Exception", "False", "only_if")])
+
+
+# Grid.isel (C09): dispatch on the grid dimension - the indices given for a dimension are handed to the slicing routine of THAT
+# dimension (node / edge indices are first turned into the faces containing them by those routines)
+_SL = "uxarray.grid.slice."
+for _k in ("n_node", "n_edge", "n_face"):
+    _fn = {"n_node": "_slice_node_indices", "n_edge": "_slice_edge_indices", "n_face": "_slice_face_indices"}[_k]
+    contract(_GISEL, props=["C09"], variant=_k,
+             params={"self": "obj('Grid')", "dim_kwargs": {_k: "opaque"}},
+             returns="opaque",
+             ensures=[f"same(result, summary('{_SL}{_fn}', self, dim_kwargs['{_k}'], True))"],
+             options={"abstract": True, "summaries": [_SL + f for f in ("_slice_node_indices", "_slice_edge_indices", "_slice_face_indices")]},
+             raises=[("Exception", "False", "only_if")])
+contract(_GISEL, props=["C09"], variant="two_dims",
+         params={"self": "obj('Grid')", "dim_kwargs": {"n_node": "opaque", "n_face": "opaque"}},
+         returns="opaque", ensures=[],
+         options={"abstract": True, "summaries": [_SL + f for f in ("_slice_node_indices", "_slice_edge_indices", "_slice_face_indices")]},
+         raises=[("ValueError", "True", "iff")])
